@@ -70,6 +70,11 @@ func runSeq(w *world, cfgName string, cfg core.TxPoolConfig, start string, seq [
 	}
 	p := core.NewTxPool(cfg, w.env.Config, c)
 	defer func() { p.Stop() }()
+	if cfgName == "small" {
+		for _, n := range []string{"A0p100", "A1p100", "A2p100", "B0p100"} {
+			p.AddRemote(w.tx(n))
+		}
+	}
 	gasPrice := big.NewInt(1)
 	signer := w.env.Signer
 	for oi, sy := range seq {
@@ -390,6 +395,7 @@ func seqWorker(shard, nsh int) {
 		}
 	}
 	enumerate(d, []string{"H0", "H1"}, []string{"default", "tiny", "nolocals"})
+	enumerate(d, []string{"H0"}, []string{"small"})
 	if tier == "thorough" && !capped {
 		// one level deeper for the default configuration from the genesis head
 		enumerate(d+1, []string{"H0"}, []string{"default"})
